@@ -53,17 +53,32 @@ type Driver struct {
 	cc client.Context
 }
 
+// setKeys makes the feeder keys present in / absent from the keyring (a key deleted or rotated away while the
+// daemon runs: its name is still in the submitter's pool of key ids).
+func (d *Driver) setKeys(present bool) {
+	for i := 0; i < nKeys; i++ {
+		uid := fmt.Sprintf("feeder%d", i)
+		_, err := d.kb.Key(uid)
+		switch {
+		case present && err != nil:
+			path := hd.CreateHDPath(sdk.CoinType, 0, uint32(i)).String()
+			if _, err := d.kb.NewAccount(uid, mnemonic, "", path, hd.Secp256k1); err != nil {
+				panic(err)
+			}
+		case !present && err == nil:
+			if err := d.kb.Delete(uid); err != nil {
+				panic(err)
+			}
+		}
+	}
+}
+
 func NewDriver(w *tf.Writer) *Driver {
 	d := &Driver{W: w, St: Stats{Distinct: map[string]bool{}}}
 	d.w = world.New(world.DefaultConfig())
 	app := d.w.App
 	d.kb = keyring.NewInMemory(app.AppCodec())
-	for i := 0; i < nKeys; i++ {
-		path := hd.CreateHDPath(sdk.CoinType, 0, uint32(i)).String()
-		if _, err := d.kb.NewAccount(fmt.Sprintf("feeder%d", i), mnemonic, "", path, hd.Secp256k1); err != nil {
-			panic(err)
-		}
-	}
+	d.setKeys(true)
 	d.cc = client.Context{
 		ChainID: world.ChainID, Codec: app.AppCodec(), InterfaceRegistry: app.InterfaceRegistry(),
 		Keyring: d.kb, TxConfig: app.GetTxConfig(), BroadcastMode: flags.BroadcastSync,
@@ -109,6 +124,7 @@ type session struct {
 	nsub int
 	mem  []memTx
 	last int // clock of the latest poll
+	down map[string]bool // local prerequisites switched off: "key" | "auth" | "sim"
 	ch   chan submitter.SignalPriceSubmission
 
 	interesting bool
@@ -215,7 +231,7 @@ func (s *session) project() tf.M {
 		"vp": vp, "slot": slot, "asg": asg,
 		"active": st.IsActive, "since": s.rel(st.Since.Unix()),
 		"svc": quotesJSON(s.svc), "pending": pend, "subs": subs, "nsub": s.nsub, "mempool": mem,
-		"lastPoll": s.last, "idleKeys": s.sm.VerifIdleKeys(), "queued": len(s.ch),
+		"lastPoll": s.last, "keysBusy": nKeys - s.sm.VerifIdleKeys(), "queued": len(s.ch), "down": len(s.down) > 0,
 	}
 }
 
@@ -313,7 +329,10 @@ func parseQuotes(q tf.M, into map[string]quote) {
 // RunScript plays one script and records its trace.
 func (d *Driver) RunScript(sc tf.Script) {
 	w := d.w
-	s := &session{d: d, w: w, r: w.Branch(), val: w.Vals[0], svc: map[string]quote{}, g: newGates(), pend: &sync.Map{}}
+	s := &session{d: d, w: w, r: w.Branch(), val: w.Vals[0], svc: map[string]quote{}, g: newGates(), pend: &sync.Map{},
+		down: map[string]bool{}}
+	d.setKeys(true)
+	defer d.setKeys(true)
 	fk, ok := w.App.FeedsKeeper, w.App.OracleKeeper
 	c := sc.C
 
@@ -364,7 +383,7 @@ func (d *Driver) RunScript(sc tf.Script) {
 	fq := newChainFeedQuerier(fk, func() sdk.Context { cc, _ := s.r.Ctx.CacheContext(); return cc })
 	s.sg = signaller.New(fq, s.both, time.Second, submitCh, lg, s.val.ValAddr, s.pend, distStart, distOffset)
 	cl := &fakeClient{g: s.g, cdc: codec.NewProtoCodec(w.App.InterfaceRegistry())}
-	sm, err := submitter.New(d.cc, []rpcclient.RemoteClient{cl}, s.both, lg, submitCh, fakeAuthQuerier{},
+	sm, err := submitter.New(d.cc, []rpcclient.RemoteClient{cl}, s.both, lg, submitCh, fakeAuthQuerier{g: s.g},
 		&fakeTxQuerier{g: s.g}, s.val.ValAddr, s.pend, 3*time.Millisecond, uint64(tf.Int(c, "tries", 1)),
 		time.Millisecond, "0.0025uband")
 	if err != nil {
@@ -379,6 +398,7 @@ func (d *Driver) RunScript(sc tf.Script) {
 		s.apply(step)
 	}
 	// let every goroutine finish (not logged): answer every gate with a failure
+	s.setDown(nil)
 	for guard := 0; len(s.subs) > 0 && guard < 100; guard++ {
 		x := s.subs[0]
 		if x.st == "bcast" {
@@ -403,8 +423,32 @@ func (s *session) log(e string, a tf.M, o tf.M) {
 	s.d.St.Events++
 }
 
+// setDown switches exactly the named local prerequisites of submitPrice off.
+func (s *session) setDown(kinds []string) {
+	s.down = map[string]bool{}
+	for _, k := range kinds {
+		if k == "key" || k == "auth" || k == "sim" {
+			s.down[k] = true
+		}
+	}
+	s.d.setKeys(!s.down["key"])
+	s.g.mu.Lock()
+	s.g.off = map[string]bool{"auth": s.down["auth"], "sim": s.down["sim"]}
+	s.g.mu.Unlock()
+}
+
 func (s *session) apply(step tf.M) {
 	switch tf.Str(step, "e", "") {
+	case "Env":
+		kinds := tf.Strs(step, "down")
+		s.setDown(kinds)
+		ks := []string{}
+		for _, k := range []string{"auth", "key", "sim"} {
+			if s.down[k] {
+				ks = append(ks, k)
+			}
+		}
+		s.log("Env", tf.M{"kinds": ks}, tf.M{"ok": true})
 	case "Tick":
 		dt := tf.Int(step, "dt", 1)
 		if dt < 1 {
